@@ -86,6 +86,10 @@ def run_property(pid, rules_fn, level, explanation, assumptions, trusted_base, t
         tdir = os.path.join(extract.CACHE, "facts-test")
         if os.path.isdir(tdir):
             ctx.test_facts = Facts(tdir)
+    from .rules import common as _common
+    renamed = _common.canonicalise(ctx)
+    renamed_locals = _common.canonicalise_locals(ctx)
+    inlined = _common.inline_helpers(ctx)
     rules = []
     crashed = []
     for fn in rules_fn(ctx):
@@ -147,6 +151,12 @@ def run_property(pid, rules_fn, level, explanation, assumptions, trusted_base, t
             json.dump({"property": pid, "source_hash": h, "violations": violations}, fh, indent=1)
         for v in violations:
             print("  %s %s %s @ %s: %s" % (v.get("kind"), v["rule"], v["key"], v["loc"], v["detail"]))
+        for k, v in renamed.items():
+            print("  note: function `%s` fills the role of `%s` and is reported under that name" % (k, v.split("::")[-1]))
+        for k, v in inlined.items():
+            print("  note: helper `%s` (not in the reviewed tree) is analysed inlined into %s" % (k, ", ".join(v)))
+        for k, v in renamed_locals.items():
+            print("  note: in %s the locals %s are reported under their reference names" % (k, ", ".join("`%s` as `%s`" % kv for kv in v.items())))
         print("VIOLATION property=%s replay=%s" % (pid, replay_path))
     wall = time.time() - t0
     # known findings are obligations that are not discharged; a proof-level claim needs all discharged
@@ -165,6 +175,9 @@ def run_property(pid, rules_fn, level, explanation, assumptions, trusted_base, t
         "samples": samples[:40],
         "functions_analysed": sorted(analysed)[:400],
         "functions_analysed_count": len(analysed),
+        "new_helpers_inlined_into_callers": inlined,
+        "locals_presented_under_reference_names": renamed_locals,
+        "helpers_presented_under_reference_names": {k: v.split("::")[-1] for k, v in renamed.items()},
         "source_hash": h,
         "facts_freshly_extracted": extracted_now,
         "extraction_s": round(ext_s, 2),
